@@ -1,6 +1,7 @@
 PROP = {
     "title": "The legacy x2j, j2x and x2j-wrapper packages agree with the core they wrap",
     "run_modules": ["RunX2j"],
+    "gen": ["setters", "wrappers", "pure", "purex2j"],
     "n": {"quick": 3000, "thorough": 48000},
     "level": "proof",
     "technique": "Coq model of the re-implemented x2j-wrapper walkers (hasKeyPath, hasKey, valuesFromKeyPath, ValuesAtKeyPath; following the repaired code) proved equal to the core walkers / the declarative path semantics with the attribute filter; thin wrapper bodies = documented compositions over an abstract codec; model/implementation correspondence by vm_compute; Go-side oracle running every exported wrapper next to the documented composition of core functions",
